@@ -173,9 +173,17 @@ def covobs_cases(rng, n, ctx):
             cov = v @ v.T                     # rank one: positive SEMI-definite, must be accepted ... but eigvalsh may return -1e-17
             arg = cov
             psdmargin = dim > 1
-        out = _call(lambda: pe.cov_Obs(means if len(means) > 1 else means[0], arg, name))
-        cases.append({'id': 'cov-%04d-%s' % (i, kind), 'ev': 'covobs', 'name': name, 'means': [rat(m) for m in means],
-                      'cov': [[rat(float(x)) for x in row] for row in np.atleast_2d(cov)], 'psdmargin': psdmargin, 'res': _res(out)})
+        # the public grad keyword (gradient of the observable with respect to the means): the covariance is validated all the same
+        grad = None
+        if kind != 'nmeans' and rng.random() < 0.35:
+            grad = [float(np.round(rng.uniform(-2, 2), 2)) for _ in range(dim)]
+        cov_before = [[rat(float(x)) for x in row] for row in np.atleast_2d(cov)]
+        arg = np.array(arg, dtype=float)          # the caller's own buffer ...
+        out = _call(lambda: pe.cov_Obs(means if len(means) > 1 else means[0], arg, name, **({'grad': grad} if grad is not None else {})))
+        arg *= 3.0                                # ... which the caller is free to reuse afterwards
+        cases.append({'id': 'cov-%04d-%s%s' % (i, kind, '-grad' if grad is not None else ''), 'ev': 'covobs', 'name': name, 'means': [rat(m) for m in means],
+                      'grad': [rat(g) for g in grad] if grad is not None else [],
+                      'cov': cov_before, 'psdmargin': psdmargin, 'res': _res(out)})
         ctx.nontrivial.add(('cov', kind, dim))
     return cases
 
